@@ -17,6 +17,7 @@ RULE = (
     "on the result.  Solvers: a constraint carrying a SimplificationAvoidanceAnnotation is the same object in "
     "s.constraints after simplify().  Non-trivial: at least one argument subtree carries a NE or relocatable "
     "annotation; distinct by (descriptor, annotation placement) hash."
+    " Session 4 (solver shard): annotated conjunctions, implicit simplification by queries, branches, second add+simplify; the annotated object itself must still be among the constraints."
 )
 ASSUMPTIONS = ["annotation identity is the annotation object's own ==/hash (test annotations compare by tag)"]
 
